@@ -161,19 +161,19 @@ func (r *reference) resolveEnv(cfg *Config, opts *options) (string, parse.Config
 
 func (r *reference) resolve(cfg *Config, opts *options) (value, error) {
 	v, err := r.resolveRef(cfg, opts)
-	if v != nil || criticalResolveError(err) {
-		return v, err
+	if v != nil {
+		return v, nil
 	}
 
+	// not found in any tree - not set, cyclic, or the path runs into a value that is
+	// no object: the resolvers are asked
 	previousErr := err
 
 	s, _, err := r.resolveEnv(cfg, opts)
 	if err != nil {
-		// TODO(ph): Not everything is an Error, will do some cleanup in another PR.
-		if v, ok := previousErr.(Error); ok {
-			if v.Reason() == ErrCyclicReference {
-				return nil, previousErr
-			}
+		// no resolver knows the name either: a cycle or a clash is reported as such
+		if isCyclicError(previousErr) || criticalResolveError(previousErr) {
+			return nil, previousErr
 		}
 		return nil, err
 	}
